@@ -338,3 +338,7 @@ def run(rep, facts, tier):
     rep.check(ok1, 'R12.4', 'discovery_event_loop/cleanup-arm/runs', 'participant_cleanup() on every path of the arm', 'the cleanup timer arm does not always run participant_cleanup()', ev.where(arm))
     rep.check(ok2, 'R12.4', 'discovery_event_loop/cleanup-arm/re-arms', 'timer re-armed on every path of the arm',
               'the cleanup timer arm can finish without re-arming participant_cleanup_timer: lease expiry would never be checked again', ev.where(arm))
+
+    # ------------------------------------------------------------ R12.5 crossed roles (shared lint, rdv/swaplint.py)
+    from rdv import swaplint
+    swaplint.run_rule(rep, facts['default'], 'R12.5', ['discovery::discovery', 'discovery::discovery_db', 'discovery::spdp'])
